@@ -289,10 +289,87 @@ func arrayStores(arr *ssa.Alloc) []ssa.Value {
 	return out
 }
 
+// membershipHelperOK: the package's own membership function really is one: it answers true only under `element == wanted`
+// with the element read from the slice parameter and `wanted` the other parameter, and false only once the loop is done.
+func membershipHelperOK(c *Ctx, rule string) {
+	w := c.W
+	role := w.roleFunc("inSlice")
+	if role == nil {
+		return // the standard library's slices.Contains is used instead (accepted by the selection rule)
+	}
+	n := 0
+	for _, fn := range w.Funcs {
+		if isGenericTemplate(fn) || !w.sameFn(fn, role) || len(fn.Params) != 2 {
+			continue
+		}
+		n++
+		var elemP, listP *ssa.Parameter
+		for _, p := range fn.Params {
+			if _, isSl := p.Type().Underlying().(*types.Slice); isSl {
+				listP = p
+			} else {
+				elemP = p
+			}
+		}
+		okTrue, okFalse, nTrue, nFalse := true, true, 0, 0
+		isMatch := func(f EdgeFact) (bool, bool) { // (is the element comparison, polarity "equal")
+			x, op, y, ok := cmpFact(f)
+			if !ok || (op != token.EQL && op != token.NEQ) || elemP == nil || listP == nil {
+				return false, false
+			}
+			if stripConv(y) != ssa.Value(elemP) {
+				x, y = y, x
+			}
+			if stripConv(y) != ssa.Value(elemP) {
+				return false, false
+			}
+			u, isU := stripConv(x).(*ssa.UnOp)
+			if !isU {
+				return false, false
+			}
+			ia, isIA := u.X.(*ssa.IndexAddr)
+			if !isIA || stripConv(ia.X) != ssa.Value(listP) {
+				return false, false
+			}
+			return true, op == token.EQL
+		}
+		forEachReturnValue(fn, 0, func(v ssa.Value, at ssa.Instruction) {
+			switch {
+			case isConstBool(v, true):
+				nTrue++
+				eq := false
+				for _, f := range factsAt(at) {
+					if m, pol := isMatch(f); m && pol {
+						eq = true
+					}
+				}
+				if !eq {
+					okTrue = false
+				}
+			case isConstBool(v, false):
+				nFalse++
+				for _, f := range factsAt(at) {
+					if m, pol := isMatch(f); m && pol {
+						okFalse = false // "not found" answered on the branch where the element matched
+					}
+				}
+				if inLoop(at.Block()) {
+					okFalse = false // gives up before every element was looked at
+				}
+			default:
+				okTrue = false
+			}
+		})
+		c.check(okTrue && okFalse && nTrue >= 1 && nFalse >= 1, rule, w.Short(fn)+": is a membership test", posOf(w, fn), "true only under element == wanted; false only after the loop", "the membership helper does not answer 'true exactly when some element equals the wanted value': an unknown revision could be adopted, or a supported one refused")
+	}
+	c.floor(rule, n, 1, "instances of the membership helper")
+}
+
 // ruleRevisionSelection (C11.4, C11.7).
 func ruleRevisionSelection(c *Ctx, r4, r7 string) {
 	c.rule(r4, "max selection: the negotiated revision is stored only for a revision that is in the local supported list and greater than the current value (highest common revision)")
 	c.rule(r7, "empty list = revision zero: when the settings frame lists no revisions the loop runs over a literal containing exactly revision zero instead of the empty list, so the prologue cannot reach the 'no common revision' error")
+	membershipHelperOK(c, r4)
 	w := c.W
 	a := w.Anchors()
 	if !c.need(r4, "ClientLoop", a.ClientLoop) {
@@ -1295,6 +1372,67 @@ func ruleKeyAsChannel(c *Ctx, rule string) {
 			}
 		})
 		c.check(nLook > 0 && okKey, rule, "KeyAsChannel: "+cf.Name()+" looks up the caller's key", w.At(mc), ro.TSHByKey+"[key]", "this function of the pooled channel looks the by-key map up with something other than the key KeyAsChannel was given: RPCs are routed to (or readiness is reported for) tunnels of another key")
+	})
+	// what each slot answers: the zero answer (nil / false) exactly when there is no registry for the key, else the
+	// answer of that registry
+	regName, _ := regNames(w)
+	allInstrs(fn, func(in ssa.Instruction) {
+		mc, ok := in.(*ssa.MakeClosure)
+		if !ok {
+			return
+		}
+		cf, ok := mc.Fn.(*ssa.Function)
+		if !ok || cf.Signature.Results().Len() != 1 {
+			return
+		}
+		okAns, nZero, nDel := true, 0, 0
+		why := ""
+		forEachReturnValue(cf, 0, func(v0 ssa.Value, at ssa.Instruction) {
+			for _, vc := range valueCases(v0, 0) {
+				absent, present := false, false
+				for _, f := range vc.Facts {
+					x, op, y, isCmp := cmpFact(f)
+					if !isCmp || !isNilConst(y) {
+						continue
+					}
+					if l, isL := origin(x).(*ssa.Lookup); isL {
+						if fr, _, isF := loadedField(l.X); isF && fr.Field == ro.TSHByKey {
+							if op == token.EQL {
+								absent = true
+							}
+							if op == token.NEQ {
+								present = true
+							}
+						}
+					}
+				}
+				switch x := vc.Val.(type) {
+				case *ssa.Const:
+					nZero++
+					if !isZeroConst(x) {
+						okAns, why = false, "a constant answer other than the zero value"
+						continue
+					}
+					if !absent {
+						okAns, why = false, "the zero answer (nil / false) is given although a registry for the key may exist"
+					}
+				case *ssa.Call:
+					g := staticCallee(x)
+					if g == nil || recvNamed(g) == nil || recvNamed(g).Obj().Name() != regName {
+						continue // an error from the wait, etc.
+					}
+					nDel++
+					if absent {
+						okAns, why = false, "the registry's method is called on the branch where the lookup found no registry (nil dereference)"
+					}
+					_ = present
+				}
+			}
+		})
+		if nZero == 0 {
+			return // a slot without a 'no registry' answer (the wait creates the registry)
+		}
+		c.check(okAns && nDel >= 1, rule, "KeyAsChannel: "+cf.Name()+" answers for the registry of the key", w.At(mc), "zero answer iff no registry, else the registry's answer", "this function of the pooled channel is wrong about the 'no registry for this key' case: "+why)
 	})
 	// both pooled channels are complete: every function slot of the literal is filled, AsChannel's with methods of the
 	// handler's one global registry
